@@ -45,6 +45,29 @@ pub fn polled_suite<E: Est>(out: &mut Out, tier: &str, rng: &mut Rng, allow: &dy
     }
 }
 
+/// streams built to sit just beside the exact special cases: an observation a few parts in 10^8..10^13 of the
+/// spread away from the running mean (not equal to it), a prefix whose sum cancels to 8-13 digits (not exactly),
+/// a jump in magnitude
+pub fn near_suite<E: Est>(out: &mut Out, tier: &str, rng: &mut Rng, allow: &dyn Fn(&str) -> bool) {
+    for rep in 0..(if tier == "thorough" { 120 } else { 30 }) {
+        let n = 2 + rng.below(8);
+        let scale = *rng.pick(&[1.0, 1.0, 2f64.powi(-90), 2f64.powi(90), 1e6]);
+        let mut d: Vec<f64> = (0..n).map(|_| scale * (rng.below(17) as f64 - 6.0) * *rng.pick(&[1.0, 0.5, 0.25])).collect();
+        if !spread_nonzero(&d) { d[0] += scale; }
+        let mean = d.iter().sum::<f64>() / n as f64;
+        let sd = (d.iter().map(|x| (x - mean) * (x - mean)).sum::<f64>() / n as f64).sqrt();
+        let eps = 2f64.powi(-(20 + rng.below(26) as i32));
+        match rep % 4 {
+            0 => d.push(mean + sd * eps),                                  // beside the running mean
+            1 => { let sum: f64 = d.iter().sum(); d.push(-sum * (1.0 + eps)); }   // the prefix sum cancels, but not exactly
+            2 => { let sum: f64 = d.iter().sum(); d.push(-sum + scale * eps); d.push(scale * 3.0); }
+            _ => { d.insert(0, scale * 1e-3); d.insert(1, scale * 1e6); }  // a jump by nine orders of magnitude right at the start
+        }
+        if rng.unit() < 0.5 { d.push(scale * (rng.below(9) as f64 - 4.0)); }
+        single_pass::<E>(out, &d, Trace::All, rng, allow);
+    }
+}
+
 pub fn bucket(n: usize) -> usize { let mut b = 1; while b < n { b *= 10; } b }
 
 pub fn merged<E: Est>(out: &mut Out, t: &Tree, trace: Trace, rng: &mut Rng, allow: &dyn Fn(&str) -> bool) {
@@ -99,10 +122,12 @@ pub fn c01(out: &mut Out, tier: &str, rng: &mut Rng) {
     polled_suite::<average::Mean>(out, tier, rng, &allow_all);
     polled_suite::<average::Variance>(out, tier, rng, &allow_all);
     // `add` at counts that no add loop reaches (beyond 2^32 and 2^53; the state is built by self-merges)
-    for (d, x) in HUGE_BASES {
+    for (d, x) in HUGE_BASES.iter().chain(HUGE_BASES_VAR.iter()).chain(HUGE_BASES_SCALED.iter()) {
         huge_counts::<average::Mean>(out, d, x);
         huge_counts::<average::Variance>(out, d, x);
     }
+    near_suite::<average::Mean>(out, tier, rng, &allow_all);
+    near_suite::<average::Variance>(out, tier, rng, &allow_all);
 }
 
 fn exhaustive_trees<E: Est>(out: &mut Out, alphabet: &[f64], max_n: usize, max_k: usize, rng: &mut Rng, allow: &dyn Fn(&str) -> bool) {
@@ -201,6 +226,21 @@ pub fn c02(out: &mut Out, tier: &str, rng: &mut Rng) {
     sampled_trees::<M7>(out, tier, rng, &allow_all, -25.0, 25.0);
     sampled_trees::<M9>(out, tier, rng, &allow_all, -22.0, 22.0);
     sampled_trees::<M12>(out, tier, rng, &allow_all, -16.0, 16.0);
+    sampled_trees::<M13>(out, tier, rng, &allow_all, -14.0, 14.0);
+    sampled_trees::<M16>(out, tier, rng, &allow_all, -11.0, 11.0);
+    // chunks whose means differ by a few parts in 10^8..10^13 of the spread (not equal), with different sizes and spreads
+    for rep in 0..(if tier == "thorough" { 80 } else { 20 }) {
+        let big = 2f64.powi(20 + rng.below(8) as i32);
+        let a: Vec<f64> = (0..(2 + 2 * rng.below(3))).map(|i| if i % 2 == 0 { -big } else { big }).collect();
+        let eps = 2f64.powi(-(2 + rng.below(20) as i32));
+        let b: Vec<f64> = match rep % 3 { 0 => vec![-3.0 + eps, 5.0 - eps * 0.5], 1 => vec![eps, 2.0 * eps, -1.5 * eps, 7.0, -7.0], _ => vec![eps * big * 1e-9] };
+        for t in [Tree::Node(Box::new(Tree::Leaf(a.clone())), Box::new(Tree::Leaf(b.clone()))), Tree::Node(Box::new(Tree::Leaf(b.clone())), Box::new(Tree::Leaf(a.clone())))] {
+            merged::<average::Variance>(out, &t, Trace::All, rng, &allow_all);
+            merged::<average::Skewness>(out, &t, Trace::All, rng, &allow_all);
+            merged::<average::Kurtosis>(out, &t, Trace::All, rng, &allow_all);
+            merged::<average::Moments4>(out, &t, Trace::All, rng, &allow_all);
+        }
+    }
 }
 
 const C03_FAMS: &[&str] = &["normal", "uniform", "exp_pos", "exp_neg", "bimodal", "outlier", "two_point", "arith", "heavy", "ties"];
@@ -254,7 +294,7 @@ fn c04_for<E: Est>(out: &mut Out, tier: &str, rng: &mut Rng) {
     let per_small = per_small.max(2);
     for n in 1..=12usize {
         for _ in 0..per_small {
-            let max_mag = ((300.0 - (n as f64).log10() - 20.0) / order - 2.0).floor().min(25.0);
+            let max_mag = ((300.0 - (n as f64).log10()) / order - 5.5).floor().min(25.0);
             let (d, _) = dataset_in(rng, n, 3e11, (-240.0 / order).max(-25.0), max_mag, FAMILIES);
             single_pass::<E>(out, &d, Trace::All, rng, &allow_all);
         }
@@ -273,7 +313,7 @@ fn c04_for<E: Est>(out: &mut Out, tier: &str, rng: &mut Rng) {
     for (n, count) in big {
         if n > 10_000 { continue; }
         for _ in 0..count.min(6) {
-            let max_mag = ((300.0 - (n as f64).log10() - 20.0) / order - 2.0).floor().min(25.0);
+            let max_mag = ((300.0 - (n as f64).log10()) / order - 5.5).floor().min(25.0);
             let (d, _) = dataset_in(rng, n, 3e11, (-240.0 / order).max(-25.0), max_mag, FAMILIES);
             single_pass::<E>(out, &d, Trace::Sparse, rng, &allow_all);
         }
@@ -292,6 +332,9 @@ pub fn c04(out: &mut Out, tier: &str, rng: &mut Rng) {
     c04_for::<M7>(out, tier, rng);
     c04_for::<M9>(out, tier, rng);
     c04_for::<M12>(out, tier, rng);
+    c04_for::<M3>(out, tier, rng);
+    c04_for::<M13>(out, tier, rng);
+    c04_for::<M16>(out, tier, rng);
     polled_suite::<average::Moments4>(out, tier, rng, &allow_all);
     polled_suite::<M6>(out, tier, rng, &allow_all);
     for (d, x) in HUGE_BASES {
@@ -380,6 +423,23 @@ pub fn c10(out: &mut Out, tier: &str, rng: &mut Rng) {
         huge_counts::<M5>(out, d, x);
     }
     for (d, x) in crate::props_pair::PHUGE_BASES { crate::props_pair::phuge_counts::<average::WeightedMeanWithError>(out, d, x); }
+    // scales at which powers of the variance leave the representable range although every statistic is an ordinary number
+    for &mag in &[-70i32, -60, -40, 40, 60, 70] {
+        for fam in ["exp_pos", "exp_neg", "outlier", "two_point"] {
+            let n = 3 + rng.below(12);
+            let base = shape(rng, fam, n);
+            let d: Vec<f64> = base.iter().map(|x| x * 10f64.powi(mag)).collect();
+            if !spread_nonzero(&d) { continue; }
+            single_pass::<M3>(out, &d, Trace::All, rng, &allow);
+            single_pass::<average::Variance>(out, &d, Trace::All, rng, &allow);
+            if mag.abs() <= 60 { single_pass::<average::Moments4>(out, &d, Trace::All, rng, &allow); }
+        }
+    }
+    for (d, x) in HUGE_BASES_SCALED {
+        huge_counts::<average::Variance>(out, d, x);
+        huge_counts::<average::Moments4>(out, d, x);
+    }
+    near_suite::<average::Variance>(out, tier, rng, &allow);
     // the witness of the repaired defect
     for d in [vec![1.0, 2.0, 3.0, 10.0], vec![-1.0, -2.0, -3.0, -10.0]] {
         single_pass::<average::Moments4>(out, &d, Trace::All, rng, &allow);
